@@ -21,7 +21,7 @@ REQUIRED_EVENTS = ["cells_judged", "history_steps_judged", "many_undefined_cases
 SHARDS = {"quick": 8, "thorough": 16}
 
 POSITIONS = ["item", "operand", "deref_value", "key_times", "key_operands", "body_item", "body_operand", "or_item",
-             "arg_sibling", "arg_nested", "arg_partial_sibling", "arg_partial_nested", "twice_in_operand", "twice_in_item"]
+             "arg_sibling", "arg_nested", "arg_partial_sibling", "arg_partial_nested", "twice_in_operand", "twice_in_item", "call_key_last"]
 DEFINED = ["defined", "undefined", "no_at_name"]
 ORDER = ["user_first", "user_last"]
 WHERE = ["file", "extra"]
@@ -45,6 +45,10 @@ def build(rng, pos, defined, order, where, nother):
     user = None
     if pos == "item":
         pattern = ["call", ref, "ret"]
+    elif pos == "call_key_last":
+        # a parameterised call whose argument key is written BEFORE the macro name (one mapping, another key order)
+        target = {"name": ref, "args": ["reg"], "pattern": [{"push": ["reg"]}]}
+        pattern = ["call", {"reg": "%rbx", ref: None}]
     elif pos == "twice_in_operand":
         # the same string macro written twice in ONE scalar (as in "\\[@any\\+@any\\*8\\]"): every occurrence is a reference
         pattern = [{"mov": ["%rbx", ref + rng.choice(["", "\\+", ","]) + ref]}]
@@ -219,8 +223,36 @@ def many_undefined_stratum(ctx, ws, n):
                 break
 
 
+PLACEHOLDERS = [({"macros": [{"name": "@ph"}], "pattern": ["call", "@undefined"]}, "@undefined"), ({"macros": [{"name": "ph_no_at"}], "pattern": ["call"]}, None),
+                ({"macros": [{"name": "@ph", "pattern": None}], "pattern": [{"mov": ["@undef2", "%rax"]}]}, "@undef2"),
+                ({"macros": [{"name": "@ph", "pattern": None}], "pattern": ["call", "@ph"]}, None),
+                ({"macros": [{"name": "@ph"}, {"name": "@ok", "pattern": "ret"}], "pattern": ["call", "@ok", "@undefined"]}, "@undefined"),
+                ({"macros": [{"name": "@ph", "pattern": ""}], "pattern": ["call", "@undefined"]}, "@undefined"),
+                ({"macros": [{"name": "@ph", "pattern": []}], "pattern": ["call", "@undefined"]}, "@undefined"),
+                ({"macros": [{"name": "no_at", "pattern": None}], "pattern": ["call"]}, None)]
+
+
+def placeholder_stratum(ctx, ws):
+    """Macro entries without a body (placeholders kept in the file: no `pattern`, or an empty one) are definitions in play like any
+    other: an undefined reference beside them is still reported by name, an entry whose name lacks '@' is still rejected, and a
+    reference to the placeholder itself does not compile. Identical at every seed."""
+    for doc, named in PLACEHOLDERS:
+        text = real.dump_rule(doc)
+        r = real.compile_rule(ws.write("ph.yaml", text), None)
+        ctx.ran()
+        ctx.event("placeholder_cells_judged")
+        ctx.case(("placeholder", text), True, stratum="body-less macro entries", outcome=r[0])
+        case = {"rule": text, "extra_macro_file": None, "cell": ["placeholder"], "expect": "raise", "ref": named, "placeholder": True}
+        if r[0] == "ok":
+            ctx.disagreement(case, f"a rule with a body-less macro entry and an undefined / ill-named / body-less reference compiled: {r[1][:200]}")
+        elif named and named not in r[2]:
+            ctx.disagreement(case, f"undefined reference {named} beside a body-less macro entry: error {r[1]}: {r[2]!r} does not name it")
+
+
 def run_shard(ctx):
     ws = real.Workspace()
+    if ctx.shard == 0:
+        placeholder_stratum(ctx, ws)
     history_stratum(ctx, ws, ctx.share(64, 2000))
     many_undefined_stratum(ctx, ws, ctx.share(32, 1500))
     cells = list(itertools.product(POSITIONS, DEFINED, ORDER, WHERE, OTHERS))
